@@ -124,13 +124,16 @@ Fixpoint abort_batch (s : cio) (b : list cmd) : cio * list delivery :=
 Inductive cev :=
 | CRegister (id : cmdid) (w : N)
 | CExec (b : list cmd)
-| CAbort (b : list cmd).
+| CAbort (b : list cmd)
+| CLifecycle.   (* Stop (once or again) / cancellation of a waiting caller's context: neither touches
+                   ClientIO's state, so no waiting caller gets an outcome from it *)
 
 Definition cstep (s : cio) (e : cev) : cio * list cmd * list delivery :=
   match e with
   | CRegister id w => (register s id w, [], [])
   | CExec b => exec_batch s b
   | CAbort b => let '(s', d) := abort_batch s b in (s', [], d)
+  | CLifecycle => (s, [], [])
   end.
 
 (* a run: final state and, per step, (executed commands, outcomes delivered) *)
